@@ -1,4 +1,5 @@
 import RedactVerif.Props.L2
+import RedactVerif.Props.FactsReset
 /-
 C15 — HelperForErrorf returns the %w operand and the Sprintf text.
 
